@@ -578,6 +578,19 @@ class SharesManager(BaseManager):
             for item in shared_items:
                 item.shared_directory = shared_directory
 
+            # The directory could have been removed, or nested shared directories
+            # could have been added, while the scan job was running
+            if not any(directory is shared_directory for directory in self._shared_directories):
+                logger.debug("ignoring scan result of removed directory : %r", shared_directory)
+                return
+
+            children = self._get_child_directories(shared_directory)
+            if children:
+                shared_items = {
+                    item for item in shared_items
+                    if not any(child.is_parent_of(item.get_absolute_path()) for child in children)
+                }
+
             # Adds all new items to the directory items
             shared_directory.items |= shared_items
 
